@@ -128,9 +128,9 @@ func (r *Runner) VerifyFunctionSeeded(p *govc.Program, fi *govc.FuncInfo, opt go
 			}
 		}
 	}
-	r.candBudget = 8 * time.Second
-	out := r.verifyFrom(p, fi, seeded)
-	r.candBudget = 0
+	rr := *r // per-call copy: units are verified concurrently
+	rr.candBudget = 8 * time.Second
+	out := rr.verifyFrom(p, fi, seeded)
 	if out.seedFailed {
 		return r.VerifyFunction(p, fi, opt)
 	}
